@@ -188,6 +188,20 @@ Theorem C14_no_local_below_remote :
 Proof. exact no_local_below_remote. Qed.
 Print Assumptions C14_no_local_below_remote.
 
+(* S2, reading: the lookup of a (mapping) feature among the basins of one
+   dataset, with the re-entrancy guard of c5ad7bc, never exhausts fuel =
+   number of basin objects + 1, whatever the basins need and deliver.  (What
+   a loaded basin delivers comes from another, structurally smaller dataset
+   of the tree: C14_open_terminates.)  Tie to the code: the oracle-only
+   inputs with a missing / sibling-provided / self-referential mapping
+   feature and their wall-clock limit; the lookup itself is not compared. *)
+Theorem C14_mapping_lookup_terminates :
+  forall (n : nat) (innate : Z -> bool) (needs : nat -> option Z)
+         (gives : nat -> Z -> bool) (feat : Z),
+    lookup n innate needs gives (S n) [] feat <> None.
+Proof. exact lookup_terminates. Qed.
+Print Assumptions C14_mapping_lookup_terminates.
+
 (* Bridge to the tree under test (regenerated on every run): the values of
    `_local_basins_allowed` per dataset class, the basin_type / basin_format /
    loaded dataset class per basin class are the ones the model was written
